@@ -7,6 +7,7 @@ Witness: real FileJournal with 5 entries, deleteEntriesTo(2) really killed (reco
 abandoned without _destroy/flush) after primitive 0 and after each later primitive write; the file is
 reopened with the real class.  Returns no violation when deleteEntriesTo has been made kill-safe."""
 import os
+import shutil
 import time
 
 from harness.corr import journal_lib as lib
@@ -38,7 +39,12 @@ def scenario(jm, tmp, pre=PRE, op=OP):
     rows, first = [], None
     kp = os.path.join(tmp, "d15-kill")
     for k in range(np_ + 1):
-        img, killed, done = lib.real_kill(jm, kp, snap, None, op, k, 0)
+        img, killed, done, exc = lib.real_kill(jm, kp, snap, None, op, k, 0)
+        if exc is not None:
+            rows.append({"k": k, "exception": repr(exc)})
+            first = first or (k, "raised %r" % (exc,))
+            lib.remove_files(kp)
+            continue
         o = lib.open_image(jm, kp, img)
         try:
             if "err" in o:
@@ -80,6 +86,10 @@ def run(ctx):
 def replay(ctx, violation):
     jm = lib.load_journal(ctx.repo)
     rp = violation.get("replay") or {}
-    rows, first, np_ = scenario(jm, ctx.tmpdir(), rp.get("pre", PRE), rp.get("op", OP))
+    tmp = ctx.tmpdir()
+    try:
+        rows, first, np_ = scenario(jm, tmp, rp.get("pre", PRE), rp.get("op", OP))
+    finally:
+        shutil.rmtree(tmp, ignore_errors=True)      # ./check --replay does not clean up the ctx
     return {"violated": first is not None, "signature": lib.D15_SIGNATURE if first else None,
             "what": first and first[1], "crash_points": rows, "tree": ctx.repo}
